@@ -70,6 +70,9 @@ itemset setflags setfield byteswap partition sort add discard __setitem__ __deli
 """.split())
 # `sort`, `fill`, ... on ndarray are in-place too; file methods write their own (fresh) file object
 
+# in-place methods that store (references to) their arguments in the receiver
+STORING_METHODS = set("append extend insert update setdefault add __setitem__".split())
+
 # methods (by name) returning fresh values and not touching the receiver
 FRESH_METHODS = set("""copy astype sum mean std var min max any all argmin argmax argsort cumsum cumprod prod round
 clip conj conjugate nonzero tolist tobytes tostring item dot trace ptp searchsorted repeat flatten nansum
@@ -132,6 +135,7 @@ class Program:
         self.funcs = {}     # (module, name) -> FunctionDef
         self.classes = {}   # (module, name) -> ClassDef
         self.imports = {}   # module -> {local name: ("mod", dotted) | ("obj", module, name)}
+        self._fields = {}
         for m in modules:
             self.load(m)
 
@@ -229,6 +233,31 @@ class Program:
                     return k, n
         return None
 
+    def class_fields(self, cls_key):
+        """attributes assigned as `self.X = ...` anywhere in the class hierarchy; None when `self` escapes
+        (is used other than as `self.<attr>` / `super()`), in which case no field sensitivity is used"""
+        if cls_key in self._fields:
+            return self._fields[cls_key]
+        fields, ok = set(), True
+        for k in self.mro(cls_key):
+            for fn in self.classes[k].body:
+                if not isinstance(fn, ast.FunctionDef) or not fn.args.args or fn.args.args[0].arg != "self":
+                    continue
+                parents = {}
+                for node in ast.walk(fn):
+                    for ch in ast.iter_child_nodes(node):
+                        parents[ch] = node
+                for node in ast.walk(fn):
+                    if isinstance(node, ast.Name) and node.id == "self":
+                        par = parents.get(node)
+                        if not (isinstance(par, ast.Attribute) and par.value is node):
+                            ok = False
+                    if isinstance(node, ast.Attribute) and isinstance(node.value, ast.Name) and node.value.id == "self" \
+                            and isinstance(node.ctx, ast.Store):
+                        fields.add(node.attr)
+        self._fields[cls_key] = sorted(fields) if ok else None
+        return self._fields[cls_key]
+
     def methods_named(self, name):
         out = []
         for k, cls in self.classes.items():
@@ -264,6 +293,27 @@ class Translator:
         self.prog = prog
         self.nvars = 0
         self.diag = []  # unknown calls etc.
+        self.fields = {}  # (self own-var, attr) -> (own var, reach var)
+        self.arr = set()
+        self.cont = set()
+
+    def init_fields(self, out, cls_key, selfpair, fresh):
+        """field-sensitive view of `self` (only for classes whose methods never let `self` escape)"""
+        names = self.prog.class_fields(cls_key) if cls_key else None
+        if not names:
+            return
+        so, sr = selfpair
+        for a in names:
+            if (so, a) in self.fields:
+                continue
+            fo, fr = self.new(), self.new()
+            self.fields[(so, a)] = (fo, fr)
+            if fresh:
+                out.append(["bind", fo, ["fresh"]])
+                out.append(["bind", fr, ["fresh"]])
+            else:
+                out.append(["bind", fo, ["alias", [so, sr]]])
+                out.append(["bind", fr, ["alias", [sr]]])
 
     def new(self):
         self.nvars += 1
@@ -274,8 +324,13 @@ class Translator:
         """returns (np, param names, IR)"""
         self.nvars = 0
         self.diag = []
+        self.fields = {}
+        self.arr = set()
+        self.cont = set()
         params = self.param_names(fn)
         scope = Scope(self, mod, cls_key, top=True)
+        rebinds = {n.id for n in ast.walk(fn) if isinstance(n, ast.Name) and isinstance(n.ctx, (ast.Store, ast.Del))}
+        scope.stable = {n for n, _ in params} - rebinds
         out = []
         pnames = []
         idx = 0
@@ -285,13 +340,17 @@ class Translator:
                 out.append(["bind", vo, ["fresh"]])
                 out.append(["bind", vr, ["fresh"]])
                 scope.selfvar = vo
+                self.init_fields(out, cls_key, (vo, vr), fresh=True)
                 continue
             out.append(["bind", vo, ["param", idx]])
             out.append(["bind", vr, ["param", idx]])
             if i == 0 and cls_key is not None and name == "self":
                 scope.selfvar = vo
+                self.init_fields(out, cls_key, (vo, vr), fresh=False)
             if ann is not None and is_array_annotation(ann):
                 scope.arr.add(vo)
+            if ann is not None and is_container_annotation(ann):
+                scope.cont.add(vo)
             pnames.append(name)
             idx += 1
         scope.block(fn.body, out, stack=[(mod, fn.name)])
@@ -313,6 +372,13 @@ class Translator:
         return ps
 
 
+def is_container_annotation(ann: str) -> bool:
+    """annotations of builtin containers / str: method calls on them are the builtin ones"""
+    parts = [x.strip() for x in ann.split("|")]
+    return all(x == "None" or x == "str" or x.split("[")[0] in ("dict", "list", "tuple", "set", "Sequence", "Mapping")
+               for x in parts)
+
+
 def is_array_annotation(ann: str) -> bool:
     """annotations of values that hold no references: ndarray, scalars, str, Path (optionally `| None`)"""
     parts = [x.strip() for x in ann.split("|")]
@@ -324,18 +390,38 @@ class Scope:
     def __init__(self, tr: Translator, mod, cls_key, top=False):
         self.tr, self.mod, self.cls_key, self.top = tr, mod, cls_key, top
         self.vars = {}        # python name -> (own var, reach var)
-        self.arr = set()      # own-vars known to hold plain ndarrays / scalars
+        # `arr`: own-vars known to hold plain ndarrays / scalars; `cont`: builtin containers / str (see properties)
         self.res = None       # result variable pair of an inlined call
         self.res_arr = True
         self.selfvar = None   # own-var of `self`
         self.def_cls = cls_key
         self.localfuncs = {}
+        self.known = {}       # outcome of stable tests on the current path (path splitting)
+        self.stable = set()   # parameter names never rebound in this function
 
     # ------------------------------------------------------------------ helpers
+    @property
+    def arr(self):
+        return self.tr.arr
+
+    @arr.setter
+    def arr(self, v):
+        self.tr.arr = v
+
+    @property
+    def cont(self):
+        return self.tr.cont
+
     def var(self, name):
         if name not in self.vars:
             self.vars[name] = (self.tr.new(), self.tr.new())
         return self.vars[name]
+
+    def pair_of(self, node):
+        """the variable pair of a plain local name (for by-reference parameter passing)"""
+        if isinstance(node, ast.Name) and node.id in self.vars:
+            return self.vars[node.id]
+        return None
 
     def bind1(self, out, v, vars_, unknown):
         if unknown:
@@ -392,8 +478,38 @@ class Scope:
         return Val([vo], [vr], False, False)
 
     # ------------------------------------------------------------------ statements
+    def stable_test(self, t):
+        """a test over never-rebound parameters and constants only: has the same value wherever it is repeated"""
+        for n in ast.walk(t):
+            if isinstance(n, ast.Name):
+                if n.id not in self.stable:
+                    return False
+            elif not isinstance(n, (ast.Compare, ast.BoolOp, ast.UnaryOp, ast.Constant, ast.Is, ast.IsNot, ast.Eq, ast.NotEq,
+                                    ast.Not, ast.And, ast.Or, ast.Load)):
+                return False
+        return True
+
     def block(self, stmts, out, stack, in_loop_with_jump=False):
-        for s in stmts:
+        for i, s in enumerate(stmts):
+            if isinstance(s, ast.If) and not in_loop_with_jump:
+                key = ast.unparse(s.test)
+                rest = stmts[i + 1:]
+                if key not in self.known and self.stable_test(s.test) and any(
+                        isinstance(n, ast.If) and ast.unparse(n.test) == key for st in rest for n in ast.walk(st)):
+                    # path splitting: the continuation is translated once per outcome of the repeated test
+                    self.expr(s.test, out, stack)
+                    arr0 = set(self.arr)
+                    a, b = [], []
+                    self.known[key] = True
+                    self.block(list(s.body) + list(rest), a, stack, in_loop_with_jump)
+                    arr_a = self.arr
+                    self.arr = set(arr0)
+                    self.known[key] = False
+                    self.block(list(s.orelse) + list(rest), b, stack, in_loop_with_jump)
+                    del self.known[key]
+                    self.arr = arr_a & self.arr
+                    out.append(["branch", ["seq", a], ["seq", b]])
+                    return
             if in_loop_with_jump:
                 sub = []
                 self.stmt(s, sub, stack, in_loop_with_jump)
@@ -431,6 +547,8 @@ class Scope:
                 self.expr(s.exc, out, stack)
         elif isinstance(s, ast.Assert):
             self.expr(s.test, out, stack)
+        elif isinstance(s, ast.If) and ast.unparse(s.test) in self.known:
+            self.block(s.body if self.known[ast.unparse(s.test)] else s.orelse, out, stack, jl)
         elif isinstance(s, ast.If):
             self.expr(s.test, out, stack)
             a, b = [], []
@@ -530,6 +648,10 @@ class Scope:
             self.write(out, base)
             if target.attr not in ("dtype", "shape"):
                 self.absorb(target.value, base, val, out)
+            if isinstance(target.value, ast.Name) and len(base.own) == 1:
+                fp = self.tr.fields.get((next(iter(base.own)), target.attr))
+                if fp is not None:
+                    self.bind(out, fp, val)
         elif isinstance(target, ast.Starred):
             self.assign(target.value, val.container(), out, stack)
         else:
@@ -625,6 +747,10 @@ class Scope:
             if e.attr in ("shape", "ndim", "size", "dtype", "names", "itemsize", "nbytes", "name", "suffix", "stem", "parent"):
                 return FRESH
             val = base.loaded()
+            if isinstance(e.value, ast.Name) and len(base.own) == 1:
+                fp = self.tr.fields.get((next(iter(base.own)), e.attr))
+                if fp is not None:
+                    val = Val([fp[0]], () if fp[0] in self.arr else [fp[1]], False, fp[0] in self.arr)
             cands = []
             if self.selfvar is not None and base.own == {self.selfvar} and self.cls_key:
                 m = self.tr.prog.find_method(self.cls_key, e.attr)
@@ -679,6 +805,7 @@ class Scope:
         kwargs = {}
         for k in e.keywords:
             kwargs[k.arg or "**"] = self.expr(k.value, out, stack)
+        AP = ([self.pair_of(a) for a in e.args], {(k.arg or "**"): self.pair_of(k.value) for k in e.keywords})
         allargs = args + list(kwargs.values())
         union = Val(arr=True)
         for a in allargs:
@@ -690,15 +817,15 @@ class Scope:
         d = dotted(f)
         if isinstance(f, ast.Name) and f.id in self.localfuncs:
             return self.inline(self.mod, self.localfuncs[f.id], args, kwargs, out, stack, cls_key=self.cls_key,
-                               def_cls=self.def_cls, closure=self)
+                               def_cls=self.def_cls, closure=self, pairs=AP)
         if isinstance(f, ast.Name) and f.id == "cls" and self.cls_key:
-            return self.construct(self.cls_key, args, kwargs, out, stack)
+            return self.construct(self.cls_key, args, kwargs, out, stack, pairs=AP)
         if isinstance(f, ast.Name) and f.id not in self.vars:
             r = self.tr.prog.resolve_name(self.mod, f)
             if r and r[0] == "func":
-                return self.inline(r[1][0], self.tr.prog.funcs[r[1]], args, kwargs, out, stack)
+                return self.inline(r[1][0], self.tr.prog.funcs[r[1]], args, kwargs, out, stack, pairs=AP)
             if r and r[0] == "class":
-                return self.construct(r[1], args, kwargs, out, stack)
+                return self.construct(r[1], args, kwargs, out, stack, pairs=AP)
             name = r[1] if r and r[0] == "ext" else f.id
             return self.external(name, f.id, args, kwargs, union, out, e)
         if d is not None and d.split(".")[0] not in self.vars:
@@ -712,13 +839,13 @@ class Scope:
                     self.tr.prog.load(mod)
                     parts = parts[1:]
                 if len(parts) == 1 and (mod, parts[0]) in self.tr.prog.funcs:
-                    return self.inline(mod, self.tr.prog.funcs[(mod, parts[0])], args, kwargs, out, stack)
+                    return self.inline(mod, self.tr.prog.funcs[(mod, parts[0])], args, kwargs, out, stack, pairs=AP)
                 if len(parts) == 1 and (mod, parts[0]) in self.tr.prog.classes:
-                    return self.construct((mod, parts[0]), args, kwargs, out, stack)
+                    return self.construct((mod, parts[0]), args, kwargs, out, stack, pairs=AP)
                 if len(parts) == 2 and (mod, parts[0]) in self.tr.prog.classes:
-                    return self.static_method((mod, parts[0]), parts[1], args, kwargs, out, stack, union, e)
+                    return self.static_method((mod, parts[0]), parts[1], args, kwargs, out, stack, union, e, pairs=AP)
             if r and r[0] == "class" and len(d.split(".")) == 2:
-                return self.static_method(r[1], d.split(".")[1], args, kwargs, out, stack, union, e)
+                return self.static_method(r[1], d.split(".")[1], args, kwargs, out, stack, union, e, pairs=AP)
             full = d
             if r and r[0] == "mod":
                 full = r[1] + d[len(head):]
@@ -734,7 +861,7 @@ class Scope:
             m = self.tr.prog.find_method(self.cls_key, f.attr, after=self.def_cls)
             if m:
                 return self.inline(m[0][0], m[1], [self.self_val()] + args, kwargs, out, stack,
-                                   cls_key=self.cls_key, def_cls=m[0])
+                                   cls_key=self.cls_key, def_cls=m[0], pairs=([self.self_pair()] + AP[0], AP[1]))
             return FRESH  # object.__init__ etc.
 
         # ---- method call on some object
@@ -752,20 +879,23 @@ class Scope:
             if not cands:
                 cands = [(k, fn) for k, fn in self.tr.prog.methods_named(name) if "property" not in decorators(fn)]
             builtin = name in INPLACE_METHODS or name in FRESH_METHODS or name in VIEW_METHODS
-            if cands and not (builtin and self.is_arr(recv)):
+            is_cont = bool(recv.own) and all(v in self.cont for v in recv.own) and isinstance(f.value, ast.Name)
+            if cands and not (builtin and (self.is_arr(recv) or is_cont)):
                 for key, fn in cands:
                     decs = decorators(fn)
                     if "staticmethod" in decs:
-                        res = res | self.inline(key[0], fn, args, kwargs, out, stack, cls_key=key)
+                        res = res | self.inline(key[0], fn, args, kwargs, out, stack, cls_key=key, pairs=AP)
                     elif "classmethod" in decs:
-                        res = res | self.inline(key[0], fn, [FRESH] + args, kwargs, out, stack, cls_key=key)
+                        res = res | self.inline(key[0], fn, [FRESH] + args, kwargs, out, stack, cls_key=key,
+                                                pairs=([None] + AP[0], AP[1]))
                     else:
                         ck = self.cls_key if on_self else key
-                        res = res | self.inline(key[0], fn, [recv] + args, kwargs, out, stack, cls_key=ck, def_cls=key)
+                        res = res | self.inline(key[0], fn, [recv] + args, kwargs, out, stack, cls_key=ck, def_cls=key,
+                                                pairs=([self.pair_of(f.value)] + AP[0], AP[1]))
                 handled = True
             if name in INPLACE_METHODS and not (on_self and cands):
                 self.write(out, recv)
-                if not self.is_arr(recv):
+                if not self.is_arr(recv) and name in STORING_METHODS:
                     self.absorb(f.value, recv, union, out)
                 res = res | recv.loaded()
                 handled = True
@@ -780,6 +910,12 @@ class Scope:
             return self.unknown_call(ast.unparse(f), [recv] + allargs, out, e)
         fv = self.expr(f, out, stack)
         return self.unknown_call(ast.unparse(f), [fv] + allargs, out, e)
+
+    def self_pair(self):
+        for name, (vo, vr) in self.vars.items():
+            if vo == self.selfvar:
+                return (vo, vr)
+        return None
 
     def self_val(self):
         for name, (vo, vr) in self.vars.items():
@@ -805,8 +941,9 @@ class Scope:
         if cands & CONTAINER_FUNCS:
             return union.container()
         if cands & VIEW_FUNCS:
-            v = union.loaded()
-            return Val(v.own, v.reach, v.unknown, all(self.is_arr(a) for a in args) and bool(args))
+            src = union if (cands & {"next", "getattr"}) or not args else args[0]
+            v = src.loaded()
+            return Val(v.own, v.reach, v.unknown, bool(args) and self.is_arr(args[0]))
         return self.unknown_call(full, args + list(kwargs.values()), out, e)
 
     def unknown_call(self, name, vals, out, e):
@@ -815,21 +952,26 @@ class Scope:
             self.write(out, v, deep=True)
         return Val(unknown=True)
 
-    def static_method(self, cls_key, name, args, kwargs, out, stack, union, e):
+    def static_method(self, cls_key, name, args, kwargs, out, stack, union, e, pairs=None):
         m = self.tr.prog.find_method(cls_key, name)
         if not m:
             return self.unknown_call(f"{cls_key[1]}.{name}", args + list(kwargs.values()), out, e)
         decs = decorators(m[1])
+        ap, kp = pairs if pairs is not None else ([None] * len(args), {})
         if "classmethod" in decs:
-            return self.inline(m[0][0], m[1], [FRESH] + args, kwargs, out, stack, cls_key=cls_key, def_cls=m[0])
-        return self.inline(m[0][0], m[1], args, kwargs, out, stack, cls_key=cls_key, def_cls=m[0])
+            return self.inline(m[0][0], m[1], [FRESH] + args, kwargs, out, stack, cls_key=cls_key, def_cls=m[0],
+                               pairs=([None] + list(ap), kp))
+        return self.inline(m[0][0], m[1], args, kwargs, out, stack, cls_key=cls_key, def_cls=m[0], pairs=(ap, kp))
 
-    def construct(self, cls_key, args, kwargs, out, stack):
+    def construct(self, cls_key, args, kwargs, out, stack, pairs=None):
         so, sr = self.tmp(out, Val())
         m = self.tr.prog.find_method(cls_key, "__init__")
         selfval = Val([so], [sr], False, False)
+        self.tr.init_fields(out, cls_key, (so, sr), fresh=True)
+        ap, kp = pairs if pairs is not None else ([None] * len(args), {})
         if m:
-            self.inline(m[0][0], m[1], [selfval] + args, kwargs, out, stack, cls_key=cls_key, def_cls=m[0])
+            self.inline(m[0][0], m[1], [selfval] + args, kwargs, out, stack, cls_key=cls_key, def_cls=m[0],
+                        pairs=([(so, sr)] + list(ap), kp))
         else:
             u = Val(arr=True)
             for a in args + list(kwargs.values()):
@@ -838,7 +980,7 @@ class Scope:
                 self.bind1(out, sr, u.all() | {sr}, u.unknown)
         return selfval
 
-    def inline(self, mod, fn, args, kwargs, out, stack, cls_key=None, def_cls=None, closure=None):
+    def inline(self, mod, fn, args, kwargs, out, stack, cls_key=None, def_cls=None, closure=None, pairs=None):
         key = (mod, fn.name, def_cls or cls_key, fn.lineno)
         if len(stack) >= Translator.MAX_DEPTH or key in stack:
             self.tr.diag.append(f"inline limit at {fn.name}")
@@ -848,7 +990,6 @@ class Scope:
         sc = Scope(self.tr, mod, cls_key)
         if closure is not None:  # free variables of a nested function are the enclosing scope's
             sc.vars = dict(closure.vars)
-            sc.arr = set(closure.arr)
             sc.localfuncs = dict(closure.localfuncs)
             sc.selfvar = closure.selfvar
         sc.def_cls = def_cls or cls_key
@@ -873,11 +1014,24 @@ class Scope:
                 bound[k] = v
             else:
                 extra = extra | v
+        # by-reference passing: a plain caller variable that the callee never rebinds IS the callee's parameter
+        rebinds = {n.id for n in ast.walk(fn) if isinstance(n, ast.Name) and isinstance(n.ctx, (ast.Store, ast.Del))}
+        shared = {}
+        if pairs is not None:
+            ap, kp = pairs
+            for i, pr in enumerate(ap):
+                if pr is not None and i < len(positional) and positional[i] not in rebinds:
+                    shared[positional[i]] = pr
+            for k, pr in kp.items():
+                if pr is not None and (k in positional or k in kwonly) and k not in rebinds:
+                    shared[k] = pr
         pairs = {}
         for name, ann in params:
-            pairs[name] = (self.tr.new(), self.tr.new())
+            pairs[name] = shared.get(name) or (self.tr.new(), self.tr.new())
         # bind all parameters from the caller's values before the callee's names shadow anything
         for name, ann in params:
+            if name in shared:
+                continue
             if name in bound:
                 val = bound[name]
                 val = Val(val.own, val.reach, val.unknown, self.is_arr(val))
@@ -892,8 +1046,12 @@ class Scope:
                     pass
         for name, ann in params:
             sc.vars[name] = pairs[name]
+            if ann is not None and is_container_annotation(ann):
+                sc.cont.add(pairs[name][0])
+        sc.stable = {n for n, _ in params} - rebinds
         if is_method:
             sc.selfvar = sc.vars[positional[0]][0]
+            self.tr.init_fields(out, def_cls or cls_key, sc.vars[positional[0]], fresh=False)
         sc.block(fn.body, out, stack + [key])
         return Val([sc.res[0]], [sc.res[1]], False, sc.res_arr)
 
